@@ -287,7 +287,7 @@ pub enum Site {
     /// argument list of a call / constructor / destructor: `insert_at` is where "(...)" goes when absent
     ArgList { open: usize, close: usize, present: bool, n: usize, last_start: usize, insert_at: usize },
     IntArg(usize, usize),
-    ObjArg(usize, usize),
+    ObjArg(usize, usize, Ty),
     Clauses { ranges: Vec<(usize, usize)>, is_case: bool, inst: usize },
     Binders { open: usize, close: usize, present: bool, n: usize, insert_at: usize },
     TypeArgs { a: usize, b: usize, present: bool },
@@ -472,7 +472,7 @@ impl<'a> Printer<'a> {
                     self.term(t, L_TERM);
                     match sig.get(i) {
                         Some((_, Ty::I64)) => self.sites.push(Site::IntArg(last_start, self.out.len())),
-                        Some(_) => self.sites.push(Site::ObjArg(last_start, self.out.len())),
+                        Some((_, t)) => self.sites.push(Site::ObjArg(last_start, self.out.len(), *t)),
                         None => {}
                     }
                 }
